@@ -1,9 +1,9 @@
 package props
 
 import (
-	"math"
 	"encoding/json"
 	"fmt"
+	"math"
 	"sort"
 	"strconv"
 	"strings"
